@@ -136,9 +136,9 @@ pub fn run(ctx: &Ctx, c02: bool) -> i32 {
       nodes.push((p, true));
     }
   }
-  for &(lon, lat) in generic_points().iter() {
+  for &(lon, lat) in generic_points().iter().chain(fibonacci_points(if ctx.quick() { 3000 } else { 100_000 }).iter()) {
     let p = ref_proj(lon, lat);
-    nodes.push((p, false));
+    nodes.push((p, true)); // fewer nudges / turns: these are generic positions
   }
   let n_nodes = nodes.len();
   let chunk = 512usize;
